@@ -10,7 +10,8 @@ CLAIMS = {
             'integer memory classes, RF9m ModRM/SIB decision table, RF18 flag-producer preservation, RF7i replacement-language reader '
             'agreement, RF33 indirect-jump CFG edges, RF34 narrowing in store-to-load forwarding, RF23/25/26/38/41 folding tables, RF32 side-effect '
             'opcode protection, RF36 liveness-scan agreement, RF39/RF40 address-scale and flag discipline, RF43 spill-slot reuse, RF44 lost-copy guard, '
-            'RF48 branch reversal, RF49 overlap predicate',
+            'RF48 branch reversal, RF49 overlap predicate, RF52 address-taken labels survive jump optimisation, RF54 addr elimination only for full-width stores, '
+            'RF55 kill set of memory availability, RF62 combiner memory staleness, RF63 one-step builtin conversions, RF64 range predicates on un-narrowed values',
             'Decides named structural clauses that are necessary conditions of generator/interpreter equivalence: the GVN constant '
             'folder applies per opcode the same C operator on the same operand width/signedness as the interpreter; every opcode that '
             'reaches instruction selection has a pattern; x86 encodings carry the width, signedness and condition code the opcode name '
@@ -19,14 +20,15 @@ CLAIMS = {
             'removed by shortcuts. It does not decide the optimisation passes in general, register allocation or any value-level '
             'behaviour.', '3 C01'),
     'C02': ('opcode-signature agreement against the naming convention (RF8), interpreter dispatch exhaustiveness (RF7a), x86 tables '
-            '(RF9), extension/narrowing maps (RF7e/7f)',
+            '(RF9), extension/narrowing maps (RF7e/7f), one-step builtin conversions (RF63), range predicates on un-narrowed values (RF64)',
             'Decides, for every opcode, that interpreter, constant folder and x86 patterns use the operator, width and signedness that '
             'MIR.md\'s naming convention prescribes, and that every emitted interpreter code has a handler. Boundary-value arithmetic '
             'inside one signature is not decided.', '3 C02'),
     'C03': ('machine-code template discipline of the wrapper / basic-block wrapper / thunks (RF11), thunk redirection through the '
             'code-write protocol (RF4d), label-operand position agreement between duplicator, simplifier and interpreter (RF7g), '
             'interface switch protocol: single writer of the public address and thunk redirection on every setter path (RF31), '
-            'indirect-jump CFG edges (RF33), origin of addresses stored into lref data (RF42)',
+            'indirect-jump CFG edges (RF33), origin of addresses stored into lref data (RF42), address-taken labels (RF52/RF53), API view of a callee at link time (RF56), '
+            'direct-call offset range test (RF64)',
             'Decides narrow structural necessary conditions of interface independence: the glue that switches a function from stub to '
             'generated code preserves every argument register and the stack, both thunk patterns have one size so retargeting never '
             'overwrites a neighbour, redirection writes go through the protected code-write path, label targets are rewired at the '
@@ -35,7 +37,8 @@ CLAIMS = {
             'interfaces and call orders is not decided.', '3 C03'),
     'C04': ('RF18 flag-producer preservation, RF7e extension-map agreement, RF7g label-operand positions, RF7b call-family coverage, '
             'RF28 alloca consolidation by path-wise linear forms, RF29 simplified memory operands, RF16j label forwarding-pointer scrub, RF38/41/48 '
-            'folding and reversal tables, RF45 fresh merge registers, RF46 top alloca precedes calls, RF50 fresh inline registers',
+            'folding and reversal tables, RF45 fresh merge registers, RF46 top alloca precedes calls, RF50 fresh inline registers, RF51 alignment inside the consolidated alloca area, '
+            'RF56 inliner reads the API view of the callee',
             'Decides that the link-time shortcut set is disjoint from overflow-flag producers, that result/argument extension maps agree '
             'with the target\'s, that label bookkeeping covers every label-carrying opcode, that the inliner\'s consolidated alloca size '
             'covers every offset it hands out, that memory operands it builds are base-only, and that label forwarding pointers used '
@@ -43,7 +46,8 @@ CLAIMS = {
             '3 C04'),
     'C05': ('ABI constant agreement (RF10), block class mapping (RF10b), argument-register counter discipline (RF10c/d), long double '
             'stack-slot alignment (RF10e), trampoline cache-key completeness and separation (RF12/RF12b), container growth not skipped '
-            '(RF3b), %al count (RF10h), block stack placement (RF10i), per-call trampoline buffer (RF47), narrowing maps (RF7f), extension map (RF7e)',
+            '(RF3b), %al count (RF10h), block stack placement (RF10i), result extension after the result move (RF10j), prologue frame residues mod 16 (RF65), '
+            'per-call trampoline buffer (RF47), narrowing maps (RF7f), extension map (RF7e)',
             'Decides that every copy of the SysV argument/return register tables and counts in the FFI trampoline generator, the code '
             'generator and c2mir agree with the psABI and with each other; that block classes map to the register classes the psABI '
             'gives them; that register counters advance exactly for arguments passed in registers; that long double stack slots are '
@@ -51,11 +55,11 @@ CLAIMS = {
             '3 C05'),
     'C06': ('ABI constant agreement for the callee side (RF10/RF10b/RF10e): callee-saved set, vararg save-area layout, incoming long '
             'double slot alignment; VA_START and shim block tables (RF10f/g); save/restore symmetry of the machine-code templates (RF11); '
-            'single-return invariant (RF30); x86 pattern table incl. emission-time rewrites (RF9)',
+            'single-return invariant (RF30); x86 pattern table incl. emission-time rewrites (RF9); prologue frame residues mod 16 by dataflow (RF65)',
             'Decides table/constant agreement with the psABI, template symmetry, and that no pass can create a second return that the '
             'single epilogue would miss; does not decide register allocation.', '3 C06'),
     'C10': ('tagged-union discipline in the text writer (RF6), writer/scanner vocabulary agreement (RF7c), scanner input function '
-            '(RF22, RF22b), label-table scope (RF15), FP print precision (RF37)',
+            '(RF22, RF22b), label-table scope (RF15), FP print precision and lossy FP-to-integer printing (RF37), trailing labels (RF7k)',
             'Decides that the textual writer reads only the active union member on every path and terminates each item kind, and that '
             'every keyword, type name, data element type the writer can print is accepted by the scanner. Numeric round trip of values '
             'is not decided.', '3 C10'),
@@ -63,7 +67,9 @@ CLAIMS = {
             'tagged-union discipline (RF6), byte callbacks as the only sink/source (RF7j), encoder counter discipline (RF13c)',
             'Decides vocabulary agreement between write_* and read_*, that lref labels come from the reader\'s label table, and that no '
             'indeterminate byte reaches the output stream. Value encodings are not decided.', '3 C11'),
-    'C12': ('bounded-write guard coverage in the decoder (RF13, including copy helpers), encoder counter discipline (RF13c), failure exits (RF13e)',
+    'C12': ('bounded-write guard coverage in the decoder (RF13, including copy helpers and the written-prefix clause for back references), no wrap of the 32-bit '
+            'range tests (RF13w: abstract execution of the number reader over all first bytes), check-hash zero-length guards on both sides (RF13h), '
+            'encoder counter discipline (RF13c), failure exits (RF13e)',
             'Decides the memory-safety clause only: every write into and copy within the decoder\'s fixed buffers is dominated by a '
             'bound check on the same index expression that covers the whole extent touched, also through copy helpers. Losslessness '
             'and detection of every corruption are not decided.', '3 C12'),
@@ -73,7 +79,7 @@ CLAIMS = {
             'is bound on every non-error path from the module item table; the redefinition error is guarded by exactly the reference '
             'guard set; table probes use interned names. History semantics are not decided.', '3 C13'),
     'C14': ('size-pass/placement-pass agreement and initialisation obligation in load_bss_data_section (RF16f), provenance of '
-            'resolved addresses in MIR_link (RF16d), store-width agreement (RF7f)',
+            'resolved addresses in MIR_link (RF16d), store-width agreement (RF7f), contiguity clause (RF16f), lref detection over all items (RF53)',
             'Decides that both passes use the same kind predicates and per-kind size expressions, that bss is zeroed on every load, and '
             'that forward/export addresses come from the definition found in the module item table. Byte contents are not decided.',
             '3 C14'),
@@ -83,7 +89,8 @@ CLAIMS = {
             'branches call the error function with a specific code.', '3 C15'),
     'C16': ('duplicate/restore protocol on every generation path (RF16a/b/i), scratch use of insn data scrubbed (RF16j), no instruction write '
             'before the working copy exists (RF16k), label-operand '
-            'positions (RF7g)',
+            'positions (RF7g), lref cell written by one engine (RF42b, known finding), API view of a callee (RF56), generator stores only engine-private '
+            'descriptor fields (RF66)',
             'Decides the must-pass-through protocol of generate_func_code, sibling agreement of saved/restored fields, and that every '
             'forwarding pointer parked in the original labels while instructions are copied is reset on every path.', '3 C16'),
     'C17': ('who-may-call allocator confinement (RF1), init/finish create-destroy pairing (RF2/RF27), single owner of item data (RF2b), realloc old-size contract (RF3), '
@@ -96,7 +103,8 @@ CLAIMS = {
             'Decides the property\'s second sentence: no variable with static storage in any library unit is written or escapes into a '
             'pointer through which its type is written. Schedules are not explored.', '3 C18'),
     'C20': ('opcode template signature agreement under every operand kind (RF8), opcode coverage (RF7h), operand union discipline (RF6), '
-            'register typing (RF21), FP constant precision (RF37)',
+            'register typing (RF21), FP constant precision (RF37), overflow flags (RF57), reference operands (RF58), item declarations and call text by abstract '
+            'execution of the printer over model modules (RF59, RF60, RF61)',
             'Decides that each opcode\'s C template uses the operator/width/signedness the interpreter uses, that every public opcode has '
             'a case, and that out_op reads the union member matching the operand mode.', '3 C20'),
 }
